@@ -79,7 +79,8 @@ def gen_template(rng):
     if rng.random() < 0.5:
         users["sat"] = rng.choice([None, "[a-z]+", ["noaa", "metop", "aqua"]])
     if rng.random() < 0.2:
-        users["ver"] = rng.choice([None, r"v\d"])
+        # (the last two patterns also admit the empty string as a value)
+        users["ver"] = rng.choice([None, r"v\d", r"(?:v\d)?", ["", "v1", "v7"]])
     # distribute the start fields over directory levels and the file part
     ndirs = rng.choice([0, 0, 1, 2, 3])
     cut = sorted(rng.sample(range(1, len(start) + 1), min(ndirs, len(start))))
@@ -235,6 +236,8 @@ def fill_for(rng, tj):
             fill[u] = rng.choice(["noaa", "metop", "aqua"])
         else:
             fill[u] = rng.choice(["v1", "v7"])
+            if rx in (r"(?:v\d)?", ["", "v1", "v7"]) and rng.random() < 0.5:
+                fill[u] = ""
     return fill
 
 
